@@ -338,7 +338,7 @@ PERMS = ("ro", "wo", "rw")
 RULES = ("OneOfMany", "AtMostOne", "AnyOfMany")
 SWITCH = ("On", "Off")
 BLOBENABLE = ("Never", "Also", "Only")
-NUMBERS = ("1", "-0.5", "12.25", "1:30", "-1:30:15.5", ".5", "7.")
+NUMBERS = ("1", "-0.5", "12.25", "1:30", "-1:30:15.5", ".5", "7.", "1.0", "0.5", "7")   # incl. different spellings of one value
 
 # field kinds: 's' free string, vocabulary tuples, 'n' number text
 R, O = "required", "optional"
